@@ -359,12 +359,26 @@ func c14PKCS8(c *Ctx) {
 			// with zeros (stripping or adding leading zeros keeps the big-endian value; anything else does not)
 			inner := form
 			if strings.HasPrefix(inner, "padleft(") && strings.HasSuffix(inner, ")") {
-				if i := strings.LastIndex(inner, ","); i > 0 {
-					inner = inner[i+1 : len(inner)-1]
+				if parts := splitTop(inner[len("padleft("):len(inner)-1], ','); len(parts) == 2 {
+					inner = parts[1]
 				}
 			}
-			inner = strings.TrimSuffix(strings.TrimPrefix(inner, "pad32("), ")")
+			if strings.HasPrefix(inner, "pad32(") {
+				inner = strings.TrimSuffix(strings.TrimPrefix(inner, "pad32("), ")")
+			}
 			want := strings.TrimSuffix(strings.TrimPrefix(fs["D"], "frombytes("), ")")
+			// a join of the octets and a suffix of them (leading bytes dropped after they were tested to be zero padding)
+			if strings.HasPrefix(inner, "?phi(") && strings.HasSuffix(inner, ")") {
+				all := true
+				for _, alt := range splitTop(inner[len("?phi("):len(inner)-1], '|') {
+					if alt != want && !(strings.HasPrefix(alt, "slice("+want+",") && strings.HasSuffix(alt, ",_)")) {
+						all = false
+					}
+				}
+				if all {
+					inner = want
+				}
+			}
 			c.Check(inner == want || "call:Bytes("+fs["D"]+")" == form, rule, fname(r), "the public key is recomputed from the same scalar as D", "", "ScalarBaseMult is given "+form+" while D is "+fs["D"]+": the octets must be used as they are or left-padded with zeros", sbm.Pos())
 		} else {
 			c.Undecided(rule, fname(r), "the public key is recomputed from the same scalar as D", "no ScalarBaseMult call", r.Pos())
@@ -779,4 +793,24 @@ func keysOfSet(m map[string]bool) string {
 	}
 	sort.Strings(ks)
 	return strings.Join(ks, ", ")
+}
+
+// splitTop splits s at the separators that are not nested in parentheses
+func splitTop(s string, sep byte) []string {
+	var out []string
+	depth, start := 0, 0
+	for i := 0; i < len(s); i++ {
+		switch s[i] {
+		case '(':
+			depth++
+		case ')':
+			depth--
+		case sep:
+			if depth == 0 {
+				out = append(out, s[start:i])
+				start = i + 1
+			}
+		}
+	}
+	return append(out, s[start:])
 }
